@@ -93,16 +93,29 @@ async def run_schedule(sc):
     U.time = lambda: clock[0]
     tasks = {}
     try:
-        for name, ci in sc["ops"]:
+        late = sc.get("late", {})          # op key -> number of releases after which the operation is started
+
+        def start(name, ci):
             key = "%s@%d" % (name, ci)
             ctx = contextvars.copy_context()
             ctx.run(CURRENT.set, key)
             tasks[key] = asyncio.get_running_loop().create_task(OPDEFS[name](clients[ci]), context=ctx)
             events.append(dict(e="start", op=key))
+        for name, ci in sc["ops"]:
+            if "%s@%d" % (name, ci) not in late:
+                start(name, ci)
         await quiesce()
-        for op in sc["order"]:
+        for r, op in enumerate(sc["order"]):
+            for name, ci in sc["ops"]:
+                if late.get("%s@%d" % (name, ci)) == r:
+                    start(name, ci)
+                    await quiesce()
             await gate.release(op)
             await quiesce()
+        for name, ci in sc["ops"]:
+            if "%s@%d" % (name, ci) not in tasks:
+                start(name, ci)
+                await quiesce()
         guard = 0
         while gate.parked and guard < 500:          # drain what is left, oldest first
             await gate.release(gate.parked[0][0])
